@@ -86,7 +86,8 @@ Goto(t, p) == pc' = [pc EXCEPT ![t] = p]
 \* Is the handler / logger mutex available to thread t?  With conf.eager the owner's imminent release
 \* (it is past its last point inside the scope of the QMutexLocker) is anticipated.
 HReleasing(o) ==
-    \/ pc[o] \in {"oth.posted", "oth.sync.end", "pm.done", "ret", "rs.cleared", "mv.started", "rs.unlocking"}
+    \/ pc[o] \in {"oth.posted", "oth.sync.end", "pm.done", "ret", "rs.cleared", "mv.started", "rs.unlocking",
+                  "rs.leaving", "mv.leaving"}     \* (trace validation) the call has decided to return without doing anything
     \/ pc[o] = "rs.locked" /\ ~tptr
     \/ pc[o] = "mv.locked" /\ tptr
     \/ pc[o] = "rs.check" /\ pending = 0 /\ ~tptr /\ conf.recheck
